@@ -190,27 +190,19 @@ def corrupt(pid, tr, rng):
                     post["tgn"].remove(d[0])
                 post["tge"] = [x for x in post["tge"] if d[0] not in x]
                 return t, "C06.ExactDiscard"
-        if pid == "C08" and "deps" in post:
-            rows = [r for r in post["deps"] if r[1]]
+        if pid == "C08" and "deps" in post and not any(
+                f.get("catch") for f in t["hdr"]["init"]["flib"].values()):
+            rows = [r for r in post["deps"] if r[1] and r[0] not in post["inputs"]]
             if rows:
                 r = rng.choice(rows)
                 r[1].pop()
                 return t, "C08.PredsExact"
-        if pid == "C09":
-            unc = set()
-            for p, cs in t["hdr"]["init"]["cells"]:
-                for c, rec in cs.items():
-                    if not rec["cached"]:
-                        unc.add((tuple(p), c))
-            # only usable when the flag was never changed in this trace
-            if unc and not any(x["op"] in ("set_cached", "new_cells", "del_cells") for x in evs):
-                p, c = sorted(unc)[0]
-                nps = len(t["hdr"]["init"]["flib"][dict(
-                    (tuple(pp), cs) for pp, cs in t["hdr"]["init"]["cells"])[p][c]["f"]]["ps"])
-                node = [list(p), [], c, [0] * nps]
-                post["data"].append([node, 5])
-                post["tgn"].append(node)
-                return t, "C09.UncachedHoldNothing"
+        if pid == "C09" and e["op"] == "call" and "defs" in post and e["fx"]:
+            cs = dict((tuple(p), c) for p, c in post["defs"]["cells"])
+            rec = cs.get(tuple(e["c"][0]), {}).get(e["c"][2])
+            if rec is not None and not rec["cached"] and not e["c"][1]:
+                e["fx"] = []        # an uncached cells that was not re-executed by the call
+                return t, "C09.UncachedReexecuted"
         if pid in ("C03", "C10", "C11", "C12") and "defs" in post and e["op"] != "call":
             pd = post["defs"]
             if pid == "C03":
